@@ -95,11 +95,16 @@ SolveCases ==
     {[fam |-> "solve", shape |-> "circle", box |-> b, px |-> px, py |-> py, dx |-> 0, dy |-> 0,
       vx |-> Vals(b.x1, b.x2, px), vy |-> Vals(b.y1, b.y2, py), exp |-> b] :
         b \in {bb \in SolveBoxes : W(bb) = H(bb)}, px \in Pairs, py \in {{"s"}, {"c"}, {"e"}}}
+    \cup
+    \* ... whichever axis it is that gives the size
+    {[fam |-> "solve", shape |-> "circle", box |-> b, px |-> px, py |-> py, dx |-> 0, dy |-> 0,
+      vx |-> Vals(b.x1, b.x2, px), vy |-> Vals(b.y1, b.y2, py), exp |-> b] :
+        b \in {bb \in SolveBoxes : W(bb) = H(bb)}, px \in {{"s"}, {"c"}, {"e"}}, py \in Pairs}
 
 \* identity checked by TLC: solving the projection of an extent returns it
 SolveIdentity ==
     c.fam = "solve" =>
-        /\ Solve(c.px, c.vx) = <<c.box.x1, c.box.x2>>
+        /\ (Cardinality(c.px) = 2 => Solve(c.px, c.vx) = <<c.box.x1, c.box.x2>>)
         /\ (Cardinality(c.py) = 2 => Solve(c.py, c.vy) = <<c.box.y1, c.box.y2>>)
 
 (***************************************************************************)
@@ -139,6 +144,14 @@ PrevPendingCases ==
     {[fam |-> "rel", form |-> "prevpending", refkind |-> "rect", ref |-> r, kind |-> "rect", w |-> sz[1], h |-> sz[2],
       dir |-> d, gap |-> g, exp |-> PlaceDir(r, d, g, sz[1], sz[2])] :
         r \in RefBoxes, sz \in {<<8, 4>>}, d \in {"h", "H", "v", "V"}, g \in {0, 8}}
+
+\* "^" after an element that writes nothing (<box>, <point>) standing between two deferred
+\* elements: still the element written just before
+PrevBoxCases ==
+    {[fam |-> "rel", form |-> "prevbox", refkind |-> rk, ref |-> (IF rk = "point" THEN B(r.x1, r.y1, r.x1, r.y1) ELSE r), kind |-> "rect",
+      w |-> sz[1], h |-> sz[2], dir |-> d, gap |-> g,
+      exp |-> PlaceDir(IF rk = "point" THEN B(r.x1, r.y1, r.x1, r.y1) ELSE r, d, g, sz[1], sz[2])] :
+        rk \in {"box", "point"}, r \in RefBoxes, sz \in {<<8, 4>>}, d \in {"h", "H", "v", "V"}, g \in {0, 8}}
 
 \* a <point> as reference: a degenerate box; it is also a legitimate "previous element"
 PointRefCases ==
@@ -252,7 +265,7 @@ ChainCases ==
         r \in RefBoxes, d1 \in {"h", "H", "v", "V"}, d2 \in {"h", "H", "v", "V"}, g \in {0, 4}}
 
 RelCases == DirCases \cup LocCases \cup EdgeCases \cup ScalarCases \cup SizeCases \cup ChainCases \cup PointRefCases
-            \cup DeltaCases \cup ReusePosCases \cup LinePtCases \cup DirDeltaCases \cup PrevDeferCases \cup PrevPendingCases
+            \cup DeltaCases \cup ReusePosCases \cup LinePtCases \cup DirDeltaCases \cup PrevDeferCases \cup PrevPendingCases \cup PrevBoxCases
 
 \* identities of the layout reference, checked on every case
 RelIdentities ==
